@@ -37,6 +37,8 @@ type RunFan struct {
 	Rest [3]string
 	// CurveErrAt >= 0: the curve evaluation fails from this evaluation on
 	CurveErrAt int
+	// CurveID: use this registered (real) curve instead of the harness curve
+	CurveID string
 }
 
 type RunCfg struct {
@@ -48,6 +50,9 @@ type RunCfg struct {
 	RpmPollMs        int
 	Window           int
 	CurveValue       func(n int) int // curve value at the n-th evaluation
+	// Setup, when set, runs after the Env exists and before the fans and controllers are
+	// created (register sensors and real curves here)
+	Setup func(env *Env)
 }
 
 type runFanState struct {
@@ -73,6 +78,16 @@ type RunHarness struct {
 	// OnEvent, when set, is called (outside all locks) after every hook event with its index
 	OnEvent func(n int, fanId, event string)
 	nev     int
+	lastW   map[string]time.Time
+	rfault  map[string]int
+	wfault  map[string]int
+}
+
+// LastWrite returns the time of the latest write to a register (zero time if never written).
+func (h *RunHarness) LastWrite(name string) time.Time {
+	h.mu.Lock()
+	defer h.mu.Unlock()
+	return h.lastW[name]
 }
 
 // FuncCurve evaluates to a function of the number of evaluations so far.
@@ -134,13 +149,20 @@ func NewRunHarness(rec *Recorder, cfg RunCfg) *RunHarness {
 	cc.ControllerAdjustmentTickRate = time.Duration(cfg.TickMs) * time.Millisecond
 	h := &RunHarness{Env: env, Rec: rec, Cfg: cfg, fs: map[string]*runFanState{}, Errs: map[string]error{}}
 	pers := persistence.NewPersistence(cc.DbPath)
+	if cfg.Setup != nil {
+		cfg.Setup(env)
+	}
 	for _, rf := range cfg.Fans {
 		px := rf.ID + "."
 		curve := &FuncCurve{ID: "curve_" + rf.ID, Fn: cfg.CurveValue, ErrAt: rf.CurveErrAt}
 		curves.RegisterSpeedCurve(curve)
+		curveID := curve.ID
+		if rf.CurveID != "" {
+			curveID = rf.CurveID
+		}
 		spec := rf.Spec
 		spec.NoAttach = true
-		fan := BuildFanP(env, spec, rf.ID, curve.ID, rf.Pwm0, rf.Mode0, px)
+		fan := BuildFanP(env, spec, rf.ID, curveID, rf.Pwm0, rf.Mode0, px)
 		fans.RegisterFan(fan)
 		if rf.Quant > 1 {
 			q := rf.Quant
@@ -169,14 +191,54 @@ func NewRunHarness(rec *Recorder, cfg RunCfg) *RunHarness {
 		h.ord = append(h.ord, rf.ID)
 	}
 	env.OnWrite = h.onWrite
+	env.OnRead = h.onRead
 	controller.VerifTrace = h.onTrace
 	return h
+}
+
+// ReadFault makes the next n reads of a register fail (garbage=false) or return garbage, which for
+// an integer file means a parse error (garbage=true); both surface as a read error.
+func (h *RunHarness) ReadFault(name string, n int) {
+	h.mu.Lock()
+	if h.rfault == nil {
+		h.rfault = map[string]int{}
+	}
+	h.rfault[name] = n
+	h.mu.Unlock()
+}
+
+// WriteFault makes the next n writes of a register fail.
+func (h *RunHarness) WriteFault(name string, n int) {
+	h.mu.Lock()
+	if h.wfault == nil {
+		h.wfault = map[string]int{}
+	}
+	h.wfault[name] = n
+	h.mu.Unlock()
+}
+
+func (h *RunHarness) onRead(e *Env, name string) (int, error, bool) {
+	h.mu.Lock()
+	n := h.rfault[name]
+	if n > 0 {
+		h.rfault[name] = n - 1
+	}
+	h.mu.Unlock()
+	if n > 0 {
+		h.Rec.Emit(Ev{"ev": "Fault", "op": "r", "reg": name})
+		return 0, fmt.Errorf("injected read error"), true
+	}
+	return 0, nil, false
 }
 
 // onWrite is called under the Env mutex for every register write: it logs the write and applies
 // the scheduled driver behaviour to the writes of the restore sequence.
 func (h *RunHarness) onWrite(e *Env, name string, val int) (error, bool, bool) {
 	h.mu.Lock()
+	if h.lastW == nil {
+		h.lastW = map[string]time.Time{}
+	}
+	h.lastW[name] = time.Now()
 	var st *runFanState
 	kind := ""
 	for _, s := range h.fs {
@@ -188,6 +250,10 @@ func (h *RunHarness) onWrite(e *Env, name string, val int) (error, bool, bool) {
 	}
 	outcome := "ok"
 	step := 0
+	if h.wfault[name] > 0 {
+		h.wfault[name]--
+		outcome = "fail"
+	}
 	if st != nil && st.restoring {
 		if kind == "mode" {
 			step = 2
